@@ -34,9 +34,8 @@ TRUSTED = [
 
 SHAPES = [(True, True), (True, False), (False, True), (False, False)]
 
-# Experiment switch (never set by the registered command): the working tree's cencoding.c carries the C equivalent
-# of the proposed repair of _assemble_objects (notes/C15.md).  The check then ties the binary to the model of the
-# REPAIRED loop (Impl/CAssembleFixed.v) and expects the property on every cut; the .pyx staleness obligation is skipped.
+# VERIF_C15_REPAIRED=1 runs the stream that keeps the proposed .pyx repair validated (stage_pyx_repair) in the quick tier
+# too; the thorough tier always runs it.
 FX = os.environ.get("VERIF_C15_REPAIRED") == "1"
 
 
@@ -48,10 +47,11 @@ class Worker:
     """One subprocess running harness/c15_worker.py.  Every wait has a timeout: a worker that hangs is killed and
     the call returns {"crash": "timeout ..."} (an observation for the caller, never a hung check)."""
 
-    def __init__(self):
+    def __init__(self, repo=None):
         self.p = None
         self.crashes = 0
         self.buf = b""
+        self.repo = repo or C.REPO
 
     def _readline(self, timeout):
         import select
@@ -84,7 +84,7 @@ class Worker:
 
     def _start(self):
         env = dict(os.environ)
-        env["VERIF_REPO"] = C.REPO
+        env["VERIF_REPO"] = self.repo
         env["PYTHONDONTWRITEBYTECODE"] = "1"
         self.buf = b""
         self.p = subprocess.Popen([C.PY, "-m", "harness.c15_worker"], cwd=C.VERIF, env=env, bufsize=0,
@@ -184,6 +184,8 @@ def gen_map_rows(rng, ro, eo, nrows, maxlen, kptype, ptype):
         else:
             n = rng.randint(1, min(maxlen, len(kp)))
             ks = rng.sample(kp, n)
+            if n > 1 and rng.random() < 0.15:
+                ks[rng.randrange(1, n)] = ks[0]           # a repeated key: dict(zip(k, v)) keeps the LAST value
             rows.append([[k, None if (eo and rng.random() < 0.3) else rng.choice(vp)] for k in ks])
     return rows
 
@@ -311,9 +313,7 @@ def run(ctx):
     ctx.coq_file(os.path.join(C.COQ, "props", "C15.v"))
     bad = C.hygiene()
     ctx.obligation("hygiene: no Admitted/Axiom/Parameter/... in coq/", not bad, "; ".join(bad))
-    stale = [] if FX else stale_assemble()
-    if FX:
-        ctx.notes.append("VERIF_C15_REPAIRED=1: model of the proposed repair, staleness obligation skipped")
+    stale = stale_assemble()
     ctx.obligation("cencoding.pyx _assemble_objects is the source embedded in cencoding.c (DESIGN 4.5)", not stale,
                    "source and compiled code differ; the property is shown for the compiled code only: %r" % (stale[:5],))
     if not ctx.quick():
@@ -341,10 +341,14 @@ def run(ctx):
     try:
         stage_schema(ctx, pq, w)
         stage_struct_levels(ctx, pq, w)
-        if not FX:
-            stage_fixtures(ctx, pq, w)
+        stage_refusal(ctx, pq, w)
+        stage_py_dict(ctx, pq)
+        stage_fixtures(ctx, pq, w)
         stage_direct(ctx, pq, w)
         stage_files(ctx, pq, w)
+        stage_hybrid_spec(ctx, pq)
+        if FX or not ctx.quick():
+            stage_pyx_repair(ctx, pq)
     finally:
         pq.close()
         w.close()
@@ -468,6 +472,176 @@ def stage_struct_levels(ctx, pq, w):
                                        [r["null"], r["defi_out"], r["max_def_out"], r["dtype"], r["none_passthrough"]])
 
 
+# ---- H: the proposed .pyx repair stays validated (thorough tier / VERIF_C15_REPAIRED=1) ------------------
+
+PYX_PATCH = [
+    ("        __pyx_t_1 = (__pyx_v_vali > 0);\n",
+     "        __pyx_t_1 = (PyList_GET_SIZE(__pyx_v_part) > 0);   /* repair: if part: */\n"),
+    ("  /*else*/ {\n    __pyx_t_7 = (__pyx_v_i - 1);\n    __pyx_t_9 = (PyObject *) *((PyObject * *) ( /* dim=0 */ (__pyx_v_assign.data + __pyx_t_7 * __pyx_v_assign.strides[0]) ));",
+     "  /*else*/ { if (PyList_GET_SIZE(__pyx_v_part) > 0) {   /* repair: if part: */\n    __pyx_t_7 = (__pyx_v_i - 1);\n    __pyx_t_9 = (PyObject *) *((PyObject * *) ( /* dim=0 */ (__pyx_v_assign.data + __pyx_t_7 * __pyx_v_assign.strides[0]) ));"),
+    ("    __Pyx_DECREF(__pyx_t_2); __pyx_t_2 = 0;\n  }\n  __pyx_L12:;",
+     "    __Pyx_DECREF(__pyx_t_2); __pyx_t_2 = 0;\n  } __pyx_v_i = (__pyx_v_i - 1);   /* repair: return i - 1 */\n  }\n  __pyx_L12:;"),
+]
+
+
+def stage_pyx_repair(ctx, pq):
+    """notes/C15.md proposes a patch of cencoding.pyx _assemble_objects (`if part:` instead of `if vali > 0:`; a page
+    that starts no row returns i - 1).  It cannot be compiled from the .pyx here, so its C equivalent is applied to a
+    scratch copy of the generated cencoding.c, built, and tied to the model of the repaired loop (Impl/CAssembleFixed.v,
+    C15_pages_full_repaired): single calls with arbitrary state, and the OLD read_col call shape (row_idx = 1 + returned,
+    every page handed to the function) over every cut of the lattice must give the rows."""
+    import shutil
+    root = os.path.join(ctx.scratch, "repo_pyx_repair")
+    shutil.copytree(os.path.join(C.REPO, "fastparquet"), os.path.join(root, "fastparquet"),
+                    ignore=shutil.ignore_patterns("*.so", "__pycache__", "test"))
+    cpath = os.path.join(root, "fastparquet", "cencoding.c")
+    src = open(cpath).read()
+    for old, new in PYX_PATCH:
+        if src.count(old) != 1:
+            ctx.extra["proposed_pyx_repair"] = "skipped: the generated cencoding.c no longer has the expected text"
+            return
+        src = src.replace(old, new, 1)
+    open(cpath, "w").write(src)
+    w = Worker(repo=root)
+    rng = ctx.rng
+    bad = []
+    try:
+        n1 = 1500
+        tasks, cmds, cases = [], [], []
+        for _ in range(n1):
+            task, args, case = gen_single_call(rng)
+            tasks.append(task), cmds.append(("assemble_page_fx",) + args), cases.append(case)
+        outs = pq.batch(cmds)
+        agree1 = 0
+        for task, case, mo in zip(tasks, cases, outs):
+            res = w.call(task)
+            m = m_result(mo)
+            if "crash" in res:
+                bad.append({"single": case, "got": "process died"})
+                continue
+            if m[0] == "ok":
+                want = [m_rows_back(m[1][0]), m[1][1]]
+                got = [res["arr"], res["ret"] + 1] if (res.get("exc") is None and not res.get("oob_written")) else ["exc/oob", res.get("exc"), res.get("oob_written")]
+            else:
+                want, got = cmp_direct(m, res, case["n"])
+            if want == got:
+                agree1 += 1
+            else:
+                bad.append({"single": case, "model": want, "patched binary": got})
+        # old read_col call shape over every cut
+        nseq = okseq = 0
+        bases = lattice_bases()
+        for ro, eo in SHAPES:
+            _, _, max_def = NF.levels_of_shape(ro, eo)
+            for rows in bases[(ro, eo)]:
+                rep, de, vals = NF.shred(rows, ro, eo)
+                L = len(rep)
+                for cuts in [[]] + [[a] for a in range(1, L)] + [[a, b] for a in range(1, L) for b in range(a + 1, L)]:
+                    pages = NF.chunk_pages(rep, de, vals, max_def, cuts)
+                    vt = VTable()
+                    task = {"op": "seq", "mode": "v1", "n": len(rows), "guard": L + 4, "arr": None, "null": ro, "max_defi": max_def,
+                            "pages": [{"rep": p[0], "def": (None if all(d == max_def for d in p[1]) else p[1]),
+                                       "vals": [vt.idx(x) for x in p[2]], "num_rows": p[3]} for p in pages]}
+                    res = w.call(task)
+                    want_rows = [None if r is None else [None if e is None else vt.idx(e) for e in r] for r in rows]
+                    nseq += 1
+                    if res.get("exc") is None and not res.get("oob_written") and res.get("arr") == want_rows:
+                        okseq += 1
+                    else:
+                        bad.append({"rows": rows, "cuts": cuts, "patched binary": res})
+    finally:
+        w.close()
+    ctx.extra["proposed_pyx_repair"] = {"single_calls_agree_with_repaired_model": "%d/%d" % (agree1, n1),
+                                        "old_read_col_call_shape_every_cut_gives_rows": "%d/%d" % (okseq, nseq),
+                                        "first_disagreements": bad[:3]}
+    ctx.obligation("proposed .pyx repair: the C equivalent built from a scratch cencoding.c agrees with Impl/CAssembleFixed.v and assembles every cut",
+                   not bad, json.dumps(bad[:3], default=repr)[:1500])
+
+
+def gen_single_call(rng):
+    """one call of _assemble_objects with arbitrary array state / prev_i / levels (ill-formed included)"""
+    n = rng.randint(1, 4)
+    null = rng.random() < 0.5
+    max_defi = rng.choice([1, 2, 2, 3, 3])
+    arr = []
+    for _k in range(n):
+        x = rng.random()
+        arr.append(None if x < 0.35 else [rng.choice([None, 1, 2, 3]) for _j in range(rng.randint(0, 3))])
+    prev_i = rng.choice([0, 0, 1, 1, 2, n, n + 1])
+    ne = rng.choice([0, 1, 1, 2, 3, 4, 5, 8])
+    rep = [0 if rng.random() < 0.45 else 1 for _k in range(ne)]
+    if rng.random() < 0.6 and ne and prev_i == 0:
+        rep[0] = 0
+    de = [rng.randint(0, max_defi) if rng.random() < 0.8 else max_defi for _k in range(ne)]
+    nv = sum(1 for d in de if d == max_defi)
+    vals = [rng.randint(0, 9) for _k in range(nv)]
+    if vals and rng.random() < 0.07:
+        vals = vals[:-1]                    # one value short: IndexError expected
+    defi = None if (ne and all(d == max_defi for d in de) and rng.random() < 0.7) else de
+    task = {"op": "seq", "mode": "one", "n": n, "guard": ne + 4, "arr": arr, "null": null, "max_defi": max_defi,
+            "prev_i": prev_i, "pages": [{"rep": rep, "def": defi, "vals": vals}]}
+    m_arr = [None if r is None else [[None if e is None else [e] for e in r]] for r in arr]
+    args = (null, max_defi, m_arr, prev_i, [[[r, d] for r, d in zip(rep, de)], vals])
+    case = {"stage": "direct-one", "n": n, "null": null, "max_defi": max_defi, "arr": arr, "prev_i": prev_i,
+            "rep": rep, "def": de, "defi_none": defi is None, "vals": vals}
+    return task, args, case
+
+
+# ---- G: Python's dict(pairs) against the model py_dict ---------------------------------------------
+
+def stage_py_dict(ctx, pq):
+    rng = ctx.rng
+    cmds, cases = [], []
+    for _ in range(200):
+        n = rng.randint(0, 8)
+        pairs = [[rng.randint(0, 4), rng.randint(0, 9)] for _k in range(n)]
+        cmds.append(("py_dict", pairs))
+        cases.append(pairs)
+    outs = pq.batch(cmds)
+    for pairs, o in zip(cases, outs):
+        case = {"stage": "py-dict", "pairs": pairs}
+        ctx.case(case, trivial=len(pairs) < 2)
+        real = [[k, v] for k, v in dict((k, v) for k, v in pairs).items()]
+        ctx.correspondence("py_dict ~ Python dict(pairs) (iteration order, last value wins)", case, [[int(a), int(b)] for a, b in o], real)
+        ctx.correspondence("harness py_dict_items ~ Python dict(pairs)", case, py_dict_items(pairs), real)
+
+
+# ---- F: files the one-level reader cannot represent: it must refuse, not mis-assemble ------------------
+
+def stage_refusal(ctx, pq, w):
+    lay1 = dict(cuts=[], version=1, dictionary=False, level_style="mixed", codec=None)
+    rows = [[1, None], None, [], [2, 3]]
+    cases = []
+    # (a) LIST / MAP below a REPEATED group: two repetition levels
+    for kind in ("list", "map"):
+        col = dict(name="r.c", kind=kind, row_opt=True, elem_opt=True, ptype="int64", key_ptype="utf8",
+                   structs=[{"name": "r", "opt": False, "rep": True}])
+        r = rows if kind == "list" else [[["a", 1], ["b", None]], None, [], [["c", 3]]]
+        layout = {"r.c/elem": lay1} if kind == "list" else {"r.c/key": lay1, "r.c/value": lay1}
+        cases.append(("%s below a repeated group (max repetition level 2)" % kind.upper(), col, r, layout, ["NotImplementedError"]))
+        col2 = dict(name="c", kind=kind, row_opt=True, elem_opt=True, ptype="int64", key_ptype="utf8", top_rep=True)
+        layout2 = {"c/elem": lay1} if kind == "list" else {"c/key": lay1, "c/value": lay1}
+        cases.append(("%s group itself declared repeated (max repetition level 2)" % kind.upper(), col2, r, layout2, ["NotImplementedError"]))
+    # (b) a v2 page that starts inside a row (v2 pages hold whole rows)
+    col = dict(name="c", kind="list", row_opt=True, elem_opt=True, ptype="int64")
+    for dictionary in (False, True):
+        cases.append(("DataPageV2 cut inside a row", col, rows, {"c/elem": dict(lay1, version=2, cuts=[1], dictionary=dictionary)}, ["ValueError"]))
+    # (c) the chunk's first v1 page starts inside a row (stream does not begin with rep = 0): written by dropping the first entry
+    for name, col, r, layout, want in cases:
+        path = os.path.join(ctx.scratch, "refuse.parquet")
+        case = {"stage": "refusal", "what": name, "cols": [col], "rgs": [{"rows": {col["name"]: r}, "layout": layout}]}
+        ctx.case(case)
+        NF.write_file(path, [col], case["rgs"])
+        res = isolated({"op": "read", "path": path, "cols": [col["name"]]})
+        exc = str(res.get("exc", ""))
+        absent = isinstance(res.get("ok"), dict) and res["ok"].get(col["name"]) == "missing column"
+        ctx.count("refusal.outcome", "%s -> %s" % (name, "column not exposed by to_pandas()" if absent else
+                                                     (exc.split(":")[0] if exc else ("crash" if "crash" in res else "rows returned"))))
+        if not absent and not any(exc.startswith(x) for x in want):
+            ctx.fail({"component": "refusal", "what": name}, {**case, "replay": {"kind": "file"}},
+                     "a file the one-level assembly cannot represent was not refused: %s" % _trim(res))
+
+
 # ---- D: nested files written by others (repository test data) --------------------------------
 
 FIXTURES = ["map_array.parq", "map-test.snappy.parquet", "test-map-last-row-split.parquet", "nested.parq",
@@ -524,7 +698,7 @@ def stage_fixtures(ctx, pq, w):
                 ctx.count("fixture.leaf_skipped", "%s:%s (v1 and v2 pages in one chunk)" % (fn, ".".join(rec["path"])))
                 continue
             else:
-                model = m_result(pq.call("run_v1", ro, eo, n, mp))
+                model = m_result(pq.call("run_v1_py", ro, eo, n, mp))
                 guard = [bool(int(x)) for x in pq.call("split_guard", ro, eo, mp)]
             case = {**case0, "rg": rec["rg"], "leaf": ".".join(rec["path"]), "pages": len(mp), "entries": len(ents), "rows": n}
             ctx.case(case)
@@ -614,32 +788,10 @@ def stage_direct(ctx, pq, w):
     n1 = 1000 if ctx.quick() else 20000
     tasks, cmds, cases = [], [], []
     for _ in range(n1):
-        n = rng.randint(1, 4)
-        null = rng.random() < 0.5
-        max_defi = rng.choice([1, 2, 2, 3, 3])
-        arr = []
-        for _k in range(n):
-            x = rng.random()
-            arr.append(None if x < 0.35 else [rng.choice([None, 1, 2, 3]) for _j in range(rng.randint(0, 3))])
-        prev_i = rng.choice([0, 0, 1, 1, 2, n, n + 1])
-        ne = rng.choice([0, 1, 1, 2, 3, 4, 5, 8])
-        rep = [0 if rng.random() < 0.45 else 1 for _k in range(ne)]
-        if rng.random() < 0.6 and ne and prev_i == 0:
-            rep[0] = 0
-        de = [rng.randint(0, max_defi) if rng.random() < 0.8 else max_defi for _k in range(ne)]
-        nv = sum(1 for d in de if d == max_defi)
-        vals = [rng.randint(0, 9) for _k in range(nv)]
-        if vals and rng.random() < 0.07:
-            vals = vals[:-1]                    # one value short: IndexError expected
-        defi = None if (ne and all(d == max_defi for d in de) and rng.random() < 0.7) else de
-        g = ne + 4
-        task = {"op": "seq", "mode": "one", "n": n, "guard": g, "arr": arr, "null": null, "max_defi": max_defi,
-                "prev_i": prev_i, "pages": [{"rep": rep, "def": defi, "vals": vals}]}
-        m_arr = [None if r is None else [[None if e is None else [e] for e in r]] for r in arr]
-        cmds.append(("assemble_page_fx" if FX else "assemble_page", null, max_defi, m_arr, prev_i, [[[r, d] for r, d in zip(rep, de)], vals]))
+        task, args, case = gen_single_call(rng)
+        cmds.append(("assemble_page",) + args)
         tasks.append(task)
-        cases.append({"stage": "direct-one", "n": n, "null": null, "max_defi": max_defi, "arr": arr, "prev_i": prev_i,
-                      "rep": rep, "def": de, "defi_none": defi is None, "vals": vals})
+        cases.append(case)
     outs = pq.batch(cmds)
     for task, case, mo in zip(tasks, cases, outs):
         res = w.call(task)
@@ -652,7 +804,7 @@ def stage_direct(ctx, pq, w):
         if m[0] == "ok":
             want = [m_rows_back(m[1][0]), m[1][1]]
             # the repaired model returns what read_col stores (1 + the returned int, which may be -1)
-            got = [res["arr"], res["ret"] + (1 if FX else 0)] if (res.get("exc") is None and not res.get("oob_written")) else \
+            got = [res["arr"], res["ret"]] if (res.get("exc") is None and not res.get("oob_written")) else \
                   ["exc/oob", res.get("exc"), res.get("oob_written")]
         else:
             want, got = cmp_direct(m, res, case["n"])
@@ -691,7 +843,7 @@ def stage_direct(ctx, pq, w):
         vt = VTable()
         mp = [m_page(r, d, vv, vt) for (r, d, vv, _) in pages]
         if v == 1:
-            cmds.append(("run_v1_fx" if FX else "run_v1", ro, eo, len(rows), mp))
+            cmds.append(("run_v1", ro, eo, len(rows), mp))
         else:
             cmds.append(("run_v2", False, ro, eo, len(rows), [[p, nr] for p, (_, _, _, nr) in zip(mp, pages)]))
         cmds.append(("shred", ro, eo, m_rows(rows, vt)))
@@ -721,9 +873,7 @@ def stage_direct(ctx, pq, w):
             # hypotheses of C15_v2_pages_whole
             ctx.correspondence("Coq pages_aligned/v2_cut_ok (hypotheses of C15_v2_pages_whole) hold for the v2 pages generated", case,
                                guard, [True, True])
-        if FX:
-            classes = []            # the repaired loop has no bad cuts (C15_pages_full_repaired)
-        elif v == 1:
+        if v == 1:
             # the harness classifier of known-bad splits is the complement of the theorem's guard
             ctx.correspondence("Coq pages_aligned/good_split (hypotheses of C15_pages_partial) ~ harness split classifier", case,
                                guard, [True, not classes])
@@ -754,7 +904,11 @@ def stage_direct(ctx, pq, w):
                                m_rows_back(m[1]) if m[0] == "ok" else repr(m), want_rows)
         # property oracle on the real function
         ok = res.get("exc") is None and not res.get("oob_written") and res["arr"] == want_rows
-        if not ok:
+        if classes:
+            # a page that starts inside a row handed to the bare function: outside its (proved exact) guard; read_col does
+            # not do that any more (fix 23664ac), so this is no failure of the property - it is counted
+            ctx.count("seq.function_outside_guard", "wrong rows or fault" if not ok else "rows")
+        elif not ok:
             cls = {"component": "_assemble_objects", "page_version": v, "split": ",".join(classes) or "good", "level": "direct"}
             ctx.fail(cls, {**case, "replay": {"kind": "seq", "task": task, "want": want_rows}},
                      "direct call sequence: got %r (exc=%r, out-of-bounds writes at %r), rows are %r" % (
@@ -788,14 +942,26 @@ def expected_cells(col, rows):
     if col["kind"] == "flat":
         return [{"scalar": repr(v)} for v in rows]
     if col["kind"] == "list":
-        return [None if r == NF.STRUCT_NULL else r for r in rows]
-    return [None if (r is None or r == NF.STRUCT_NULL) else {"dict": [[k, v] for k, v in r]} for r in rows]
+        return [None if NF.is_struct_null(r) else r for r in rows]
+    return [None if (r is None or NF.is_struct_null(r)) else {"dict": py_dict_items(r)} for r in rows]
+
+
+def py_dict_items(pairs):
+    """items of dict(pairs) in iteration order (keys at their first occurrence, last value wins) - the semantics proved for
+    the Coq py_dict (C15_dict_last_wins / C15_dict_keys_first_occurrence) and tied to Python's dict in stage G"""
+    d = {}
+    for k, v in pairs:
+        kk = json.dumps(k)
+        d[kk] = [d[kk][0] if kk in d else k, v]
+    return list(d.values())
 
 
 def file_case_classes(case):
     """known-bad regions touched by a file case (computed from the page structure, not from the model)"""
     classes = set()
-    if FX:
+    if True:
+        # since the read_col fix (leading continuation appended in Python) every cut must read correctly from a file;
+        # the two .pyx defects remain reachable only by calling _assemble_objects directly (stage A)
         return []
     for rg in case["rgs"]:
         for c in case["cols"]:
@@ -824,9 +990,9 @@ def model_file(pq, case, written):
             n = len(rg["rows"][leaf["col"]])
             ro_call = leaf["row_opt"]
             pages = leaf["pages"]
-            if leaf.get("struct_opt") is not None:
-                # LIST / MAP group below a struct: the call parameters and levels read_col derives (model of _nested_levels)
-                pt = [1 if leaf["struct_opt"] else 0, 1 if leaf["row_opt"] else 0, 2, 1 if leaf["elem_opt"] else 0]
+            if leaf.get("struct_opts") is not None:
+                # LIST / MAP group below structs: the call parameters and levels read_col derives (model of _nested_levels)
+                pt = [1 if o else 0 for o in leaf["struct_opts"]] + [1 if leaf["row_opt"] else 0, 2, 1 if leaf["elem_opt"] else 0]
                 folded = []
                 for (r, d, v) in pages:
                     nl = pq.call("nested_levels", pt, d, leaf["max_def"])
@@ -835,7 +1001,7 @@ def model_file(pq, case, written):
                 pages = folded
             mp = [m_page(r, d, v, vt) for (r, d, v) in pages]
             if leaf["version"] == 1:
-                cmds.append(("run_v1_fx" if FX else "run_v1", ro_call, leaf["elem_opt"], n, mp))
+                cmds.append(("run_v1_py", ro_call, leaf["elem_opt"], n, mp))
             else:
                 # read_data_page_v2's branch for this leaf's pages (model of the if/elif chain): record assembly?
                 br = pq.call("v2_branch", False, 1, 8 if leaf["dictionary"] else 0)
@@ -877,7 +1043,7 @@ def predicted_cells(case, mres, vts):
                     elif v is None:
                         return None             # dict(zip(k, None)) raises
                     else:
-                        cells.append({"dict": [[a, b] for a, b in zip(k, v)]})     # zip_maps of the model
+                        cells.append({"dict": py_dict_items(list(zip(k, v)))})     # zip_maps of the model, then dict()
         out[c["name"]] = cells
     return out
 
@@ -905,8 +1071,39 @@ def impl_cells_idx(case, cells, vts):
     return out
 
 
+HYB_SAMPLES = []
+
+
 def write_case(case, path):
-    return NF.write_file(path, case["cols"], case["rgs"])
+    NF.LEVEL_LOG = []
+    try:
+        return NF.write_file(path, case["cols"], case["rgs"])
+    finally:
+        if len(HYB_SAMPLES) < 4000:
+            HYB_SAMPLES.extend(NF.LEVEL_LOG[:6])
+        NF.LEVEL_LOG = None
+
+
+def stage_hybrid_spec(ctx, pq):
+    """the level / dictionary-index streams the spec-level writer put into the files are exactly what the proved spec
+    encoder Codec/Hybrid.v hyb_enc (round trip hyb_roundtrip) produces for the same runs"""
+    rng = ctx.rng
+    picks = HYB_SAMPLES if len(HYB_SAMPLES) <= 600 else rng.sample(HYB_SAMPLES, 600)
+    outs = pq.batch([("hyb_enc", w, [[r[0], r[1], r[2]] if r[0] == "rle" else [r[0], list(r[1])] for r in runs]) for (w, runs, b) in picks])
+    for (w, runs, b), o in zip(picks, outs):
+        case = {"stage": "hybrid-spec", "width": w, "runs": runs if len(json.dumps(runs)) < 300 else {"n_runs": len(runs)}}
+        ctx.case(case)
+        ctx.correspondence("Coq hyb_enc (spec, proved round trip) ~ harness/nestedfile.hybrid bytes in the written files", case,
+                           o.hex() if isinstance(o, (bytes, bytearray)) else repr(o), b.hex())
+    # and the spec DEcoder on the written bytes gives the levels back (instance of C15_page_payload_v1/_v2)
+    sub = picks[:150]
+    flat = [[v for r in runs for v in ([r[2]] * r[1] if r[0] == "rle" else r[1])] for (w, runs, b) in sub]
+    outs = pq.batch([("hyb_dec", True, w, len(f), b) for (w, runs, b), f in zip(sub, flat)])
+    for (w, runs, b), f, o in zip(sub, flat, outs):
+        case = {"stage": "hybrid-spec-dec", "width": w, "n": len(f), "bytes": b.hex()[:80]}
+        ctx.case(case)
+        ctx.correspondence("Coq hyb_dec (spec) on the written level bytes = the levels", case,
+                           [int(x) for x in o[0][0]] if o and o != [] else repr(o), f)
 
 
 def check_file_case(ctx, pq, w, case, path, conf_budget):
@@ -920,10 +1117,19 @@ def check_file_case(ctx, pq, w, case, path, conf_budget):
     ctx.count("file.split_class", ",".join(classes) or "good")
     ctx.count("file.page_version", ",".join(map(str, versions)))
     ctx.count("file.values", ",".join(encs))
+    ctx.count("file.page_stats", ",".join(sorted({str(m) for rg in case["rgs"] for lay in rg["layout"].values() for m in (lay.get("page_stats") or [None])})))
+    for rg in case["rgs"]:
+        for lay in rg["layout"].values():
+            if lay["version"] == 2 and lay.get("codec"):
+                for fl in (lay.get("is_compressed") or [None]):
+                    ctx.count("file.v2_codec_is_compressed", "%s/%s/%s" % (lay["codec"], fl, "dict" if lay["dictionary"] else "plain"))
     ctx.count("file.codecs", ",".join(sorted({str(lay.get("codec")) for rg in case["rgs"] for lay in rg["layout"].values()})))
     ctx.count("file.kinds", ",".join(sorted(c["kind"] + ("" if c["kind"] == "flat" else ("/opt" if c["row_opt"] else "/req") + ("/opt" if c["elem_opt"] else "/req"))
                                             for c in case["cols"])))
-    ctx.count("file.struct_nested", ",".join(sorted({("optional struct" if c["struct"]["opt"] else "required struct") for c in case["cols"] if c.get("struct")})) or "top level")
+    ctx.count("file.struct_nested", ",".join(sorted({"/".join("optional" if x["opt"] else "required" for x in NF.col_structs(c)) + " struct"
+                                                     for c in case["cols"] if NF.col_structs(c)})) or "top level")
+    ctx.count("file.empty_pages", sum(1 for rg in case["rgs"] for lay in rg["layout"].values() if len(set(lay["cuts"])) != len(lay["cuts"])
+                                      or (lay["cuts"] and lay["cuts"][0] == 0)))
     ctx.count("file.row_groups", len(case["rgs"]))
     ctx.count("file.max_pages_per_chunk", max(len(lay["cuts"]) + 1 for rg in case["rgs"] for lay in rg["layout"].values()))
     written = write_case(case, path)
@@ -950,7 +1156,7 @@ def check_file_case(ctx, pq, w, case, path, conf_budget):
         ctx.count("file.model_predicts_fault", json.dumps(sorted(str(v) for v in mres.values() if isinstance(v, dict))[:1]))
     if not classes and pred is not None:
         want_idx = impl_cells_idx(case, want, vts)
-        ctx.correspondence("model on a good split = rows (instance of C15_pages_partial, file level)", case, pred, want_idx)
+        ctx.correspondence("model on every cut = rows (instance of C15_pages_full, file level)", case, pred, want_idx)
     # the property itself
     if got != want:
         # known-bad splits exist in v1 chunks only: a file that touches one is classified under v1
@@ -973,7 +1179,16 @@ def gen_layout(rng, rep, version, force_cuts=None, maxcuts=3, ptype=None):
     else:
         cand = list(range(1, len(rep))) if version == 1 else row_boundaries(rep)
         cuts = sorted(rng.sample(cand, min(len(cand), rng.choice([0, 1, 1, 2, maxcuts]))))
+    if force_cuts is None and rng.random() < 0.08:
+        # a page without any entry: a cut position used twice (or a cut at 0)
+        cuts = sorted(cuts + [rng.choice(cuts + [0])])
+    npages = len(cuts) + 1
+    modes = [None, None, "all", "elems", "zero"]
     return dict(cuts=cuts, version=version, dictionary=(rng.random() < 0.5 and ptype != "boolean"),
+                # optional header content a reader must not let change the rows: page / chunk Statistics.null_count in three
+                # counting conventions, and per v2 page the is_compressed flag absent / true / false (mixed within a chunk)
+                page_stats=[rng.choice(modes) for _ in range(npages)], chunk_stats=rng.choice(modes),
+                is_compressed=[rng.choice([None, True, False]) for _ in range(npages)],
                 level_style=rng.choice(["mixed", "rle", "bp"]), codec=rng.choice([None, None, "SNAPPY", "GZIP"]),
                 legacy_dict=rng.random() < 0.5)
 
@@ -1031,6 +1246,30 @@ def stage_files(ctx, pq, w):
                 case = {"stage": "file-map-fixed", "cols": [col], "rgs": [rg]}
                 nfile += 1
                 check_file_case(ctx, pq, w, case, os.path.join(ctx.scratch, "f%d.parquet" % nfile), conf_budget)
+    # ---- fixed grid: optional header content that must not change the rows (seeded changes C15-3, C15-4) ----------
+    hrows = [[1, None, 2], None, [], [None], [3], None, [4, 5], [], [None, None], [6]]
+    for ptype in ("int64", "utf8"):
+        pl = pool(ptype)
+        rows = [None if r is None else [None if e is None else pl[e % len(pl)] for e in r] for r in hrows]
+        rep, de, vals = NF.shred(rows, True, True)
+        rb = row_boundaries(rep)
+        cuts = [rb[2], rb[6]]
+        for dictionary in (False, True):
+            for mode in (None, "all", "elems", "zero"):
+                lay = dict(cuts=cuts, version=1, dictionary=dictionary, level_style="mixed", codec=None,
+                           page_stats=[mode] * 3, chunk_stats=mode)
+                col = dict(name="c", kind="list", row_opt=True, elem_opt=True, ptype=ptype)
+                case = {"stage": "file-header-variants", "cols": [col], "rgs": [{"rows": {"c": rows}, "layout": {"c/elem": lay}}]}
+                nfile += 1
+                check_file_case(ctx, pq, w, case, os.path.join(ctx.scratch, "f%d.parquet" % nfile), conf_budget)
+            for codec in ("SNAPPY", "GZIP"):
+                for flags in ([None, True, False], [False, False, True]):
+                    lay = dict(cuts=cuts, version=2, dictionary=dictionary, level_style="mixed", codec=codec,
+                               is_compressed=flags, page_stats=["all", None, "elems"])
+                    col = dict(name="c", kind="list", row_opt=True, elem_opt=True, ptype=ptype)
+                    case = {"stage": "file-header-variants", "cols": [col], "rgs": [{"rows": {"c": rows}, "layout": {"c/elem": lay}}]}
+                    nfile += 1
+                    check_file_case(ctx, pq, w, case, os.path.join(ctx.scratch, "f%d.parquet" % nfile), conf_budget)
     # ---- random files ------------------------------------------------------------------------
     nrand = 400 if ctx.quick() else 15000
     for _ in range(nrand):
@@ -1051,9 +1290,11 @@ def stage_files(ctx, pq, w):
             elif rng.random() < 0.3:
                 col["group_name"], col["elem_name"] = rng.choice([("bag", "array_element"), ("array", "item"), ("list", "item")])
             if rng.random() < 0.25:
-                # the LIST / MAP group sits inside a struct group; pandas column "s<k>.<name>"
-                col["struct"] = {"name": "s%d" % ci, "opt": rng.random() < 0.6}
-                col["name"] = "s%d.%s" % (ci, name)
+                # the LIST / MAP group sits inside one or two struct groups; pandas column "s<k>[.t<k>].<name>"
+                col["structs"] = [{"name": "s%d" % ci, "opt": rng.random() < 0.6}]
+                if rng.random() < 0.35:
+                    col["structs"].append({"name": "t%d" % ci, "opt": rng.random() < 0.6})
+                col["name"] = ".".join([x["name"] for x in col["structs"]] + [name])
             cols.append(col)
         if rng.random() < 0.35:
             # an ordinary required column before / between / after the nested ones
@@ -1087,8 +1328,10 @@ def stage_files(ctx, pq, w):
                     rows = gen_rows(rng, col["row_opt"], col["elem_opt"], nrows, maxlen, col["ptype"])
                 else:
                     rows = gen_map_rows(rng, col["row_opt"], col["elem_opt"], nrows, maxlen, col["key_ptype"], col["ptype"])
-                if col.get("struct") and col["struct"]["opt"]:
-                    rows = [NF.STRUCT_NULL if rng.random() < 0.15 else r for r in rows]
+                nso = sum(1 for x in NF.col_structs(col) if x["opt"])
+                if nso:
+                    rows = [(NF.STRUCT_NULL if (nso == 1 or rng.random() < 0.5) else "<struct null 1>") if rng.random() < 0.15 else r
+                            for r in rows]
                 rg["rows"][col["name"]] = rows
                 for leaf in NF.leaf_columns(col):
                     lrows = NF.leaf_rows(col, leaf, rows)
